@@ -133,6 +133,7 @@ READER_ROLES_BY_TAG: Dict[Tuple[str, str], object] = {
     ("SCHEDULER_FINISHED", "assign:self.runtime"): "sched_runtime",
     ("TASK_PLACEMENT", "assign:self.runtime"): "strategy_runtime",
     ("TASK_FINISHED", "assign:self.placements[-1].completion_time"): "task.completion",
+    ("TASK_FINISHED", "assignexpr:self.slack"): "task.completion",  # slack = deadline - <completion column> read directly
     ("TASK_PREEMPT", "assign:self.placements[-1].completion_time"): "time",
     ("TASK_SKIP", "arg:append"): "time",
     ("TASK_SCHEDULED", "kw:Placement.placement_time"): "placement_time",
